@@ -34,6 +34,10 @@ def name_repr(comps, kind):
         return [comp_uri(c) for c in comps]
     if kind == 'byteslist':
         return [bytes(c) for c in formal]
+    if kind == 'tuple':
+        return tuple(bytes(c) for c in formal)
+    if kind == 'iter':
+        return (bytes(c) for c in formal)            # a one-shot iterator is an Iterable of components too
     if kind == 'bytearraylist':
         return [bytearray(c) for c in formal]
     if kind == 'memviewlist':
